@@ -31,6 +31,9 @@ func (e *Engine) now(st *State) *Term {
 
 func registerTime(e *Engine) {
 	e.Intr["time.Now"] = func(c *Call) []*State { return c.Return(timeVal(c.E.now(c.St))) }
+	e.Intr["time.Unix"] = func(c *Call) []*State {
+		return c.Return(timeVal(BVAdd(BVMul(c.argTerm(0), BVC(1000000000, 64)), c.argTerm(1))))
+	}
 	e.Intr["time.Since"] = func(c *Call) []*State {
 		n := c.E.now(c.St)
 		return c.Return(BVSub(n, timeExt(c.Args[0])))
